@@ -809,4 +809,374 @@ theorem retry_same_set (T : TOps τ) {s : State τ} (w : WF s) {a : Addr} (hv : 
   · have := w2.log_nodup; rw [e2.log, ← List.append_assoc] at this; exact this
   · rw [e2.rndPos, ec.rndPos, hperm.countP_eq]
 
+/-! ## Exact resumption: the retry reproduces the clean run, random sources included -/
+
+/-- empty the fault schedule ("memory is available again") -/
+def State.clr (s : State τ) : State τ := { s with failIn := none }
+
+theorem clr_clr (s : State τ) : s.clr.clr = s.clr := rfl
+theorem clr_storeValues (s : State τ) (k : Nat) (ys : List τ) :
+    (s.storeValues k ys).clr = s.clr.storeValues k ys := by
+  unfold State.storeValues
+  show _ = match s.ops[k]? with | none => _ | some o => _
+  cases s.ops[k]? <;> rfl
+
+theorem clr_valueOf (s : State τ) : s.clr.valueOf? = s.valueOf? := rfl
+theorem clr_validAddr (s : State τ) : s.clr.validAddr = s.validAddr := rfl
+theorem WF.clr {s : State τ} (w : WF s) : WF s.clr := w.setFailIn none
+
+/-- `evalSelf` commutes with emptying the schedule, unless the scheduled failure fires -/
+theorem evalSelf_clr (kind : Kind τ) (n : NodeInfo τ) (a : Addr) (tf : State τ) (xs : List τ) :
+    evalSelf kind n a tf xs = (tf.clr, .error .error) ∨
+    ((evalSelf kind n a tf xs).2 = (evalSelf kind n a tf.clr xs).2 ∧
+      (evalSelf kind n a tf xs).1.clr = (evalSelf kind n a tf.clr xs).1) := by
+  cases kind with
+  | param p => right; exact ⟨rfl, rfl⟩
+  | rnd =>
+    unfold evalSelf
+    simp only [if_true]
+    have hc : tf.clr.failIn = none := rfl
+    rw [hc]
+    cases hf : tf.failIn with
+    | none => right; exact ⟨rfl, by simp only; rw [clr_storeValues]; rfl⟩
+    | some m =>
+      cases m with
+      | zero => left; rfl
+      | succ m => right; exact ⟨rfl, by simp only; rw [clr_storeValues]; rfl⟩
+  | op sem =>
+    have tail : ∀ sB : State τ,
+        ((match sem.fwd xs with
+          | none => (sB, Except.error Err.error)
+          | some ys =>
+            match ys[a.vid]? with
+            | some v => (({ sB with log := sB.log ++ [a.oid] }).storeValues a.oid ys, Except.ok v)
+            | none => (({ sB with log := sB.log ++ [a.oid] }).storeValues a.oid ys, .error .crash)) :
+              State τ × Except Err τ).2 =
+        ((match sem.fwd xs with
+          | none => (sB.clr, Except.error Err.error)
+          | some ys =>
+            match ys[a.vid]? with
+            | some v => (({ sB.clr with log := sB.clr.log ++ [a.oid] }).storeValues a.oid ys, Except.ok v)
+            | none => (({ sB.clr with log := sB.clr.log ++ [a.oid] }).storeValues a.oid ys, .error .crash)) :
+              State τ × Except Err τ).2 ∧
+        ((match sem.fwd xs with
+          | none => (sB, Except.error Err.error)
+          | some ys =>
+            match ys[a.vid]? with
+            | some v => (({ sB with log := sB.log ++ [a.oid] }).storeValues a.oid ys, Except.ok v)
+            | none => (({ sB with log := sB.log ++ [a.oid] }).storeValues a.oid ys, .error .crash)) :
+              State τ × Except Err τ).1.clr =
+        ((match sem.fwd xs with
+          | none => (sB.clr, Except.error Err.error)
+          | some ys =>
+            match ys[a.vid]? with
+            | some v => (({ sB.clr with log := sB.clr.log ++ [a.oid] }).storeValues a.oid ys, Except.ok v)
+            | none => (({ sB.clr with log := sB.clr.log ++ [a.oid] }).storeValues a.oid ys, .error .crash)) :
+              State τ × Except Err τ).1 := by
+      intro sB
+      cases sem.fwd xs with
+      | none => exact ⟨rfl, rfl⟩
+      | some ys =>
+        simp only
+        cases ys[a.vid]? with
+        | none => exact ⟨rfl, by simp only; rw [clr_storeValues]; rfl⟩
+        | some v => exact ⟨rfl, by simp only; rw [clr_storeValues]; rfl⟩
+    unfold evalSelf
+    simp only
+    have hc : tf.clr.failIn = none := rfl
+    rw [hc]
+    rcases Bool.eq_false_or_eq_true sem.faulty with hfl | hfl
+    · simp only [hfl, if_true]
+      cases hf : tf.failIn with
+      | none => right; exact tail { tf with failIn := none }
+      | some m =>
+        cases m with
+        | zero => left; rfl
+        | succ m => right; exact tail { tf with failIn := some m }
+    · simp only [hfl, Bool.false_eq_true, if_false]
+      right; exact tail tf
+
+/-- a node that shows a value is returned as it is, by any amount of fuel -/
+theorem forwardRec_stable (T : TOps τ) {fuel : Nat} {s : State τ} {b : Addr} {x : τ}
+    (hv : s.validAddr b = true) (hlt : b.oid < fuel) (hx : s.valueOf? b = some x) :
+    forwardRec T fuel s b = (s, .ok x) := by
+  cases fuel with
+  | zero => omega
+  | succ fuel =>
+    obtain ⟨o, ho, hvid⟩ := validAddr_iff.1 hv
+    rw [forwardRec_succ]
+    unfold State.valueOf? at hx
+    simp only [ho] at hx ⊢
+    cases hk : o.kind with
+    | param p =>
+      simp only [hk] at hx ⊢
+      by_cases h0 : b.vid = 0
+      · simp only [h0, if_true, Option.some.injEq] at hx ⊢; rw [hx]
+      · simp [h0] at hx
+    | rnd =>
+      simp only [hk] at hx ⊢
+      cases hn : o.rets[b.vid]? with
+      | none => simp [hn] at hx
+      | some n => simp only [hn] at hx ⊢; rw [hx]
+    | op sem =>
+      simp only [hk] at hx ⊢
+      cases hn : o.rets[b.vid]? with
+      | none => simp [hn] at hx
+      | some n => simp only [hn] at hx ⊢; rw [hx]
+
+theorem forwardArgs_stable (ev : State τ → Addr → State τ × Except Err τ) {s : State τ} {bs : List Addr} {xs : List τ}
+    (hev : ∀ b ∈ bs, ∀ x, s.valueOf? b = some x → ev s b = (s, .ok x))
+    (hxs : bs.mapM s.valueOf? = some xs) : forwardArgsWith ev s bs = (s, .ok xs) := by
+  induction bs generalizing xs with
+  | nil => simp at hxs; subst hxs; rfl
+  | cons b rest ih =>
+    simp only [List.mapM_cons, Option.bind_eq_bind] at hxs
+    cases h1 : s.valueOf? b with
+    | none => simp [h1] at hxs
+    | some x =>
+      simp only [h1, Option.bind_some] at hxs
+      cases h2 : rest.mapM s.valueOf? with
+      | none => simp [h2] at hxs
+      | some xs' =>
+        simp only [h2, Option.bind_some, Option.pure_def, Option.some.injEq] at hxs
+        subst hxs
+        unfold forwardArgsWith
+        rw [hev b List.mem_cons_self x h1]
+        simp only
+        rw [ih (fun b' hb' => hev b' (List.mem_cons_of_mem _ hb')) h2]
+
+theorem forwardArgsWith_cons (ev : State τ → Addr → State τ × Except Err τ) (s : State τ) (b : Addr)
+    (rest : List Addr) :
+    forwardArgsWith ev s (b :: rest) =
+      match ev s b with
+      | (s1, .error e) => (s1, .error e)
+      | (s1, .ok v) =>
+        match forwardArgsWith ev s1 rest with
+        | (s2, .error e) => (s2, .error e)
+        | (s2, .ok vs) => (s2, .ok (v :: vs)) := rfl
+
+/-- The attempt `res` (started from `tf`) relative to the clean run `(sc, .ok v)` (started from
+`tf.clr`): either it succeeded and differs from the clean run in the schedule only, or it failed
+and running the request `again` from the state it reached, schedule emptied, gives exactly the
+clean run's state and value. -/
+def Resumes {α : Type} (again : State τ → State τ × Except Err α) (res : State τ × Except Err α)
+    (sc : State τ) (v : α) : Prop :=
+  (res.2 = .ok v ∧ res.1.clr = sc) ∨ ((∃ e, res.2 = .error e) ∧ again res.1.clr = (sc, .ok v))
+
+theorem forwardArgs_resume (ev : State τ → Addr → State τ × Except Err τ) (fuel : Nat)
+    (hev : ∀ tf b, WF tf → tf.validAddr b = true → b.oid < fuel →
+      FwdSpec tf b (ev tf b) ∧ (∀ x, tf.valueOf? b = some x → ev tf b = (tf, .ok x)) ∧
+      (∀ sc x, ev tf.clr b = (sc, .ok x) → Resumes (fun t => ev t b) (ev tf b) sc x))
+    (tf : State τ) (bs : List Addr) (w : WF tf) (hbs : ∀ b ∈ bs, tf.validAddr b = true ∧ b.oid < fuel)
+    (sca : State τ) (xs : List τ) (hclean : forwardArgsWith ev tf.clr bs = (sca, .ok xs)) :
+    Resumes (fun t => forwardArgsWith ev t bs) (forwardArgsWith ev tf bs) sca xs := by
+  induction bs generalizing tf sca xs with
+  | nil =>
+    simp only [forwardArgsWith, Prod.mk.injEq, Except.ok.injEq] at hclean
+    exact .inl ⟨by rw [← hclean.2]; rfl, hclean.1⟩
+  | cons b rest ih =>
+    have hb := hbs b List.mem_cons_self
+    obtain ⟨sp, -, hres⟩ := hev tf b w hb.1 hb.2
+    have hspec : ∀ s b, WF s → s.validAddr b = true → b.oid < fuel → FwdSpec s b (ev s b) :=
+      fun s b w' h1 h2 => (hev s b w' h1 h2).1
+    -- the clean run
+    rw [forwardArgsWith_cons] at hclean
+    cases hcb : ev tf.clr b with
+    | mk t1 r =>
+      rw [hcb] at hclean
+      cases r with
+      | error e => simp at hclean
+      | ok x =>
+        simp only at hclean
+        cases hcr : forwardArgsWith ev t1 rest with
+        | mk sca' r2 =>
+          rw [hcr] at hclean
+          cases r2 with
+          | error e => simp at hclean
+          | ok xs' =>
+            simp only [Prod.mk.injEq, Except.ok.injEq] at hclean
+            obtain ⟨rfl, rfl⟩ := hclean
+            rcases hres t1 x hcb with ⟨hok, hclr⟩ | ⟨⟨e, he⟩, hagain⟩
+            · -- the attempt got through `b`
+              cases h1 : ev tf b with
+              | mk tf1 r1 =>
+                rw [h1] at sp hok hclr
+                simp only at hok hclr
+                subst hok
+                obtain ⟨l1, p1⟩ := sp.post
+                obtain ⟨hvx, -⟩ := sp.ok x rfl
+                simp only at p1 hvx
+                have w1 := p1.ext.wf w
+                have hbs1 : ∀ b' ∈ rest, tf1.validAddr b' = true ∧ b'.oid < fuel := fun b' hb' => by
+                  rw [p1.ext.validAddr]; exact hbs b' (List.mem_cons_of_mem _ hb')
+                have hih := ih tf1 w1 hbs1 sca' xs' (by rw [hclr]; exact hcr)
+                have spr := forwardArgs_spec ev fuel hspec tf1 rest w1 hbs1
+                rw [forwardArgsWith_cons]
+                rw [h1]
+                simp only
+                cases h2 : forwardArgsWith ev tf1 rest with
+                | mk s2 r2 =>
+                  rw [h2] at hih spr
+                  rcases hih with ⟨hok2, hclr2⟩ | ⟨⟨e2, he2⟩, hagain2⟩
+                  · simp only at hok2 hclr2; subst hok2
+                    exact .inl ⟨rfl, hclr2⟩
+                  · simp only at he2 hagain2; subst he2
+                    refine .inr ⟨⟨e2, rfl⟩, ?_⟩
+                    simp only
+                    obtain ⟨l2, p2⟩ := spr.post
+                    simp only at p2
+                    have w2 : WF s2.clr := (p2.ext.wf w1).clr
+                    have hv2 : s2.clr.validAddr b = true := by
+                      rw [clr_validAddr, p2.ext.validAddr, p1.ext.validAddr]; exact hb.1
+                    have hx2 : s2.clr.valueOf? b = some x := by
+                      rw [clr_valueOf]; exact p2.ext.valueOf_mono hvx
+                    have := (hev s2.clr b w2 hv2 hb.2).2.1 x hx2
+                    rw [forwardArgsWith_cons]
+                    rw [this]
+                    simp only
+                    rw [hagain2]
+            · -- the attempt failed inside `b`
+              cases h1 : ev tf b with
+              | mk s1 r1 =>
+                rw [h1] at he hagain
+                simp only at he hagain
+                subst he
+                rw [forwardArgsWith_cons]
+                rw [h1]
+                refine .inr ⟨⟨e, rfl⟩, ?_⟩
+                simp only
+                rw [forwardArgsWith_cons]
+                rw [hagain]
+                simp only
+                rw [hcr]
+
+theorem forwardRec_resume (T : TOps τ) (fuel : Nat) :
+    ∀ (tf : State τ) (a : Addr), WF tf → tf.validAddr a = true → a.oid < fuel →
+      ∀ sc v, forwardRec T fuel tf.clr a = (sc, .ok v) →
+        Resumes (fun t => forwardRec T fuel t a) (forwardRec T fuel tf a) sc v := by
+  induction fuel with
+  | zero => intro tf a _ _ h; omega
+  | succ fuel ih =>
+    intro tf a w hv hlt sc v hclean
+    obtain ⟨o, ho, hvid⟩ := validAddr_iff.1 hv
+    obtain ⟨n, hn⟩ : ∃ n, o.rets[a.vid]? = some n := ⟨_, List.getElem?_eq_getElem hvid⟩
+    have hoc : tf.clr.ops[a.oid]? = some o := ho
+    have kok := w.kind_ok _ o ho
+    by_cases hnp : o.kind.isParam = true
+    · rw [forwardRec_succ] at hclean ⊢
+      simp only [hoc] at hclean
+      simp only [ho]
+      cases hk : o.kind with
+      | rnd => simp [hk, Kind.isParam] at hnp
+      | op sem => simp [hk, Kind.isParam] at hnp
+      | param p =>
+        rw [hk] at kok hclean; simp only [KindOK] at kok
+        have h0 : a.vid = 0 := by omega
+        simp only [h0, if_true, Prod.mk.injEq, Except.ok.injEq] at hclean ⊢
+        exact .inl ⟨by rw [← hclean.2]; rfl, hclean.1⟩
+    · have hnp : o.kind.isParam = false := by simpa using hnp
+      rw [forwardRec_succ_nonparam T fuel hoc hnp] at hclean
+      rw [forwardRec_succ_nonparam T fuel ho hnp]
+      simp only [hn] at hclean ⊢
+      cases hval : n.value with
+      | some v' =>
+        rw [hval] at hclean
+        simp only [Prod.mk.injEq, Except.ok.injEq] at hclean ⊢
+        exact .inl ⟨by rw [← hclean.2], hclean.1⟩
+      | none =>
+        rw [hval] at hclean
+        simp only at hclean ⊢
+        have hargs := w.args_lt _ o ho
+        have hbs : ∀ b ∈ o.args, tf.validAddr b = true ∧ b.oid < fuel :=
+          fun b hb => ⟨(hargs b hb).2, by have := (hargs b hb).1; omega⟩
+        have hev : ∀ tf b, WF tf → tf.validAddr b = true → b.oid < fuel →
+            FwdSpec tf b (forwardRec T fuel tf b) ∧
+            (∀ x, tf.valueOf? b = some x → forwardRec T fuel tf b = (tf, .ok x)) ∧
+            (∀ sc x, forwardRec T fuel tf.clr b = (sc, .ok x) →
+              Resumes (fun t => forwardRec T fuel t b) (forwardRec T fuel tf b) sc x) :=
+          fun tf b w' h1 h2 => ⟨forwardRec_spec T fuel tf b w' h1 h2, fun x hx => forwardRec_stable T h1 h2 hx,
+            ih tf b w' h1 h2⟩
+        -- the clean run: arguments, then the operator
+        cases hca : forwardArgsWith (forwardRec T fuel) tf.clr o.args with
+        | mk sca ra =>
+          rw [hca] at hclean
+          cases ra with
+          | error e => simp at hclean
+          | ok xs =>
+            simp only at hclean
+            have hres := forwardArgs_resume (forwardRec T fuel) fuel hev tf o.args w hbs sca xs hca
+            have spa := forwardArgs_spec (forwardRec T fuel) fuel (forwardRec_spec T fuel) tf o.args w hbs
+            -- re-running the request from a state in which the arguments are available
+            have again : ∀ t : State τ, WF t → t.ops[a.oid]? = some o →
+                forwardArgsWith (forwardRec T fuel) t o.args = (sca, .ok xs) →
+                forwardRec T (fuel + 1) t a = (sc, .ok v) := by
+              intro t _ hot hta
+              rw [forwardRec_succ_nonparam T fuel hot hnp]
+              simp only [hn, hval, hta]
+              exact hclean
+            cases h1 : forwardArgsWith (forwardRec T fuel) tf o.args with
+            | mk s1 r1 =>
+              rw [h1] at hres spa
+              obtain ⟨l1, p1⟩ := spa.post
+              simp only at p1
+              have w1 := p1.ext.wf w
+              have ho1 : s1.ops[a.oid]? = some o := by
+                rw [p1.ext.same]; exact ho
+                intro hmem
+                obtain ⟨b, hb, hkb⟩ := p1.anc _ hmem
+                have := w.anc_le hkb
+                have := (hargs b hb).1
+                omega
+              rcases hres with ⟨hok, hclr⟩ | ⟨⟨e, he⟩, hagain⟩
+              · simp only at hok hclr
+                subst hok
+                simp only
+                obtain ⟨hxs, -⟩ := spa.ok xs rfl
+                simp only at hxs
+                rcases evalSelf_clr o.kind n a s1 xs with hfired | ⟨hr, hs⟩
+                · -- the scheduled failure fires in the operator's own forward
+                  rw [hfired]
+                  refine .inr ⟨⟨_, rfl⟩, ?_⟩
+                  simp only [clr_clr]
+                  apply again s1.clr w1.clr ho1
+                  rw [← hclr]
+                  apply forwardArgs_stable
+                  · intro b hb x hx
+                    exact forwardRec_stable T (by rw [clr_validAddr, p1.ext.validAddr]; exact (hbs b hb).1)
+                      (hbs b hb).2 hx
+                  · rw [clr_valueOf]; exact hxs
+                · rw [hclr, hclean] at hr hs
+                  exact .inl ⟨hr, hs⟩
+              · simp only at he hagain
+                subst he
+                simp only
+                refine .inr ⟨⟨e, rfl⟩, ?_⟩
+                exact again s1.clr w1.clr ho1 hagain
+
+/-- **Exact resumption.**  If `forward a` without a scheduled failure succeeds from `s`, then
+after an attempt from `s` under *any* fault schedule, `forward a` with the schedule emptied
+returns the same value and reaches the very same state (operators, values, log, stream position)
+as the run that never failed — random sources included. -/
+theorem forward_resume (T : TOps τ) {s : State τ} (w : WF s) {a : Addr} (hv : s.validAddr a = true)
+    {sc : State τ} {v : τ} (hclean : forward T s.clr a = (sc, .ok v)) :
+    forward T (forward T s a).1.clr a = (sc, .ok v) := by
+  have hvc : s.clr.validAddr a = true := hv
+  have spc := forward_spec T w.clr hvc
+  rw [hclean] at spc
+  obtain ⟨hvalc, -⟩ := spc.ok v rfl
+  obtain ⟨lc, pc⟩ := spc.post
+  simp only at hvalc pc
+  obtain ⟨l, e, _⟩ := forward_ext T a w
+  have hv1 : (forward T s a).1.clr.validAddr a = true := by rw [clr_validAddr, e.validAddr]; exact hv
+  have hfeq : ∀ {t : State τ}, t.validAddr a = true → forward T t a = forwardRec T (a.oid + 1) t a := by
+    intro t ht; unfold forward; rw [if_pos ht]
+  rw [hfeq hvc] at hclean
+  rw [hfeq hv1]
+  rw [hfeq hv] at hv1 e ⊢
+  rcases forwardRec_resume T (a.oid + 1) s a w hv (Nat.lt_succ_self _) sc v hclean with ⟨hok, hclr⟩ | ⟨_, hagain⟩
+  · rw [hclr]
+    have hvsc : sc.validAddr a = true := by rw [← hclr]; exact hv1
+    exact forwardRec_stable T hvsc (Nat.lt_succ_self _) hvalc
+  · exact hagain
+
 end Primitiv.Graph
